@@ -395,7 +395,11 @@ func runEnv(r *vf.Run, c *tcase, e *envSpec, ei int) {
 		ctlWG.Add(1)
 		go func() {
 			defer ctlWG.Done()
-			for i := 0; i < 200; i++ {
+			iterations := 200
+			if e.readHeavy {
+				iterations = 20000 // cache-pressure probes: keep evicting until the walkers are done (bounded)
+			}
+			for i := 0; i < iterations; i++ {
 				select {
 				case <-stop:
 					return
